@@ -644,8 +644,17 @@ pub fn main_c08(ctx: &Ctx) -> ! {
         st.outcomes.lock().unwrap().extend(local);
     });
     // discard_bom=false: the only difference is one leading U+FEFF that is the first character of the stream
-    for (input, _) in [("\u{feff}a", 0), ("\u{feff}", 0), ("\u{feff}\u{feff}<p>", 0), ("a\u{feff}", 0)] {
-        for s in chunkings(input, 2, 8) {
+    // (schedules include empty feeds at every position: an empty first feed must not use up the one-shot check)
+    for (input, _) in [("\u{feff}a", 0), ("\u{feff}", 0), ("\u{feff}\u{feff}<p>", 0), ("a\u{feff}", 0), ("\u{feff}<!DOCTYPE html><title>t</title>x", 0), ("\u{feff}\r\n<p>", 0)] {
+        let mut scheds = chunkings(input, 2, 8);
+        for base in chunkings(input, 1, 0).into_iter().take(4) {
+            scheds.extend(with_empty_feeds(&base));
+            let mut two = base.clone();
+            two.insert(0, Feed::Empty);
+            two.insert(0, Feed::Empty);
+            scheds.push(two);
+        }
+        for s in scheds {
             st.evals.fetch_add(1, Ordering::Relaxed);
             let a = run_tree(&TreeCfg::default(), &s, &Env::default(), true);
             let b = run_tree(&TreeCfg { discard_bom: false, ..Default::default() }, &s, &Env::default(), true);
